@@ -4,6 +4,7 @@ import (
 	"fmt"
 	"math/rand/v2"
 
+	corev1 "k8s.io/api/core/v1"
 	"k8s.io/apimachinery/pkg/types"
 
 	edsv1 "github.com/DataDog/extendeddaemonset/api/v1alpha1"
@@ -173,7 +174,6 @@ func init() {
 	register(histProfile("C01", []string{"C01"}, 1500, 60000, histOpts{maxNodes: 6, pCanary: 0.4, fancy: []float64{0.3, 0.7}, faults: true}, "C01.create", "C01.dup", "C01.ineligible"))
 	register(histProfile("C04", []string{"C04"}, 1500, 60000, histOpts{maxNodes: 6, pCanary: 1, fancy: []float64{0, 0.3}, faults: true, pctReplicas: true}, "C04.canary-sync", "C04.active-with-canary", "C04.canary-status"))
 	register(histProfile("C05", []string{"C05"}, 1500, 60000, histOpts{maxNodes: 4, pCanary: 0.85, fancy: []float64{0}, faults: true}, "C05.switch"))
-	register(histProfile("C08", []string{"C08"}, 1500, 60000, histOpts{maxNodes: 6, pCanary: 0.5, fancy: []float64{0, 0.3}, faults: true}, "C08.paused-or-frozen-sync", "C08.paused-canary-sync"))
 	register(histProfile("C09", []string{"C09"}, 1500, 60000, histOpts{maxNodes: 8, pCanary: 0.2, fancy: []float64{0, 0.3}, faults: true}, "C09.creates", "C09.spacing", "C09.update-del"))
 	register(histProfile("C12", []string{"C12"}, 1200, 50000, histOpts{maxNodes: 4, pCanary: 0.4, fancy: []float64{0, 0.3}, faults: true, twoEDS: true}, "C12.foreign-listed", "C12.write"))
 	register(histProfile("C13", []string{"C13"}, 1500, 60000, histOpts{maxNodes: 4, pCanary: 0.5, fancy: []float64{0.3, 0.7}, faults: true}, "C13.create", "C13.delete", "C13.podtemplate"))
@@ -515,4 +515,171 @@ func init() {
 	register(&Profile{Name: "C19", Decide: []string{"C19"}, Quick: 1500, Thorough: 80000, Gen: genC19, Body: bodyC19,
 		NonVacuous: []string{"C19.command", "C19.obeyed"}, Chunk: 50,
 		Rule: "ExtendedDaemonSet states {no canary, canary running, auto-paused, user-paused, failed, mid rolling update} reached by seeded history with the real kubectl-eds command bodies running as simulated clients whose Get and Patch/Update interleave with reconciles; every command's write set and refusal is judged; then one final command followed by fair reconciles, after which the controller's interpretation (state, promotion of exactly the validated replica set, rollback) is judged. " + histRule})
+}
+
+// ---------------------------------------------------------------------------------------
+// C08: per-sync monitors ride on the history; the body adds the liveness halves: a paused
+// rolling update still fills empty nodes, a paused canary resumes on unpause, and everything
+// completes once the annotations are lifted.
+
+func genC08(r *rand.Rand, tier string, idx int) *World {
+	o := histOpts{maxNodes: 5, pCanary: 0.5, fancy: []float64{0, 0.3}, faults: idx%2 == 1, c02: true}
+	if tier == "thorough" {
+		o.maxNodes = 10
+	}
+	w := genHistory(r, tier, o)
+	w.Extra["c02prop"] = "C08"
+	w.Cfg.AnnotationEdits = true
+	w.Cfg.EndCanary = "validate"
+	w.Extra["hold"] = pick(r, "", "ru-paused", "ru-paused", "canary-unpause", "canary-unpause", "frozen")
+	if c := w.EDS[0].Strategy.Canary; c != nil && w.Extra["hold"] == "canary-unpause" {
+		mode := c.ValidationMode
+		if mode == "" {
+			mode = string(w.DefaultValidationMode)
+		}
+		if mode != "manual" {
+			c.Duration = "6h" // the canary must still be there when it is unpaused
+		}
+		c.CanaryTimeout = ""
+		c.NodeSelector = nil
+	}
+	return w
+}
+
+func (s *Sim) activeTemplateSpec(e *edsv1.ExtendedDaemonSet) *corev1.PodSpec {
+	act := s.Store.GetERS(e.Namespace, e.Status.ActiveReplicaSet)
+	if act == nil {
+		return nil
+	}
+	return &act.Spec.Template.Spec
+}
+
+func bodyC08(s *Sim) {
+	s.Setup()
+	s.Chaos()
+	s.Drain()
+	def := s.W.EDS[0]
+	key := types.NamespacedName{Namespace: def.NS, Name: def.Name}
+	r := subRng(s.Seed, "c08hold")
+	bound := s.c02Bound()
+	s.W.Cfg.KubeletFaults, s.W.Cfg.NodeChurn = false, false
+	switch s.W.Extra["hold"] {
+	case "ru-paused", "frozen":
+		frozen := s.W.Extra["hold"] == "frozen"
+		s.userAnnotate(def.NS, def.Name, edsv1.ExtendedDaemonSetRolloutFrozenAnnotationKey, map[bool]string{true: "true", false: "-"}[frozen])
+		s.userAnnotate(def.NS, def.Name, edsv1.ExtendedDaemonSetRollingUpdatePausedAnnotationKey, map[bool]string{true: "-", false: "true"}[frozen])
+		// remember which nodes are empty now: while frozen they must stay empty
+		for i := 1; i <= bound; i++ {
+			s.step++
+			s.endCanaries(i)
+			s.Round(r)
+		}
+		e := s.Store.GetEDS(def.NS, def.Name)
+		if e == nil {
+			break
+		}
+		spec := s.activeTemplateSpec(e)
+		if spec == nil || s.canaryBusy() {
+			break
+		}
+		s.Stats.NonVacuous["C08.hold-"+s.W.Extra["hold"]]++
+		if !frozen {
+			for _, n := range s.Store.Nodes() {
+				if !eligibleSpec(n, spec) {
+					continue
+				}
+				has := false
+				for _, p := range s.Store.Pods() {
+					if isDaemonPod(p, def.NS, def.Name) && podNode(p) == n.Name && !terminating(p) {
+						has = true
+					}
+				}
+				if !has {
+					s.Violate("C08", "paused-still-creates", "", "rolling-update-paused for %d rounds: eligible node %s still has no daemon pod", bound, n.Name)
+				}
+			}
+		}
+	case "canary-unpause":
+		e := s.Store.GetEDS(def.NS, def.Name)
+		if e == nil || e.Spec.Strategy.Canary == nil || e.Status.Canary == nil {
+			break
+		}
+		cr := s.Store.GetERS(def.NS, e.Status.Canary.ReplicaSet)
+		if cr == nil || ersCondTrue(&cr.Status, edsv1.ConditionTypeCanaryFailed) {
+			break
+		}
+		// pause it (user), then take canary pods away, then unpause
+		how := pick(r, "annotation", "cli", "already")
+		paused := annTrue(e.Annotations, edsv1.ExtendedDaemonSetCanaryPausedAnnotationKey) || ersCondTrue(&cr.Status, edsv1.ConditionTypeCanaryPaused)
+		if !paused {
+			if how == "cli" {
+				s.RunCLI("canary-pause", key)
+			} else {
+				s.userAnnotate(def.NS, def.Name, edsv1.ExtendedDaemonSetCanaryPausedAnnotationKey, "true")
+				s.userAnnotate(def.NS, def.Name, edsv1.ExtendedDaemonSetCanaryUnpausedAnnotationKey, "-")
+			}
+		}
+		s.Round(r)
+		letter := letterOfTpl(&cr.Spec.Template)
+		removed := 0
+		for _, p := range s.Store.Pods() {
+			if letterOfPod(p) == letter && isDaemonPod(p, def.NS, def.Name) && r.IntN(3) != 0 {
+				s.Store.Remove(objKey{KPod, p.Namespace, p.Name}) // e.g. evicted and collected
+				removed++
+			}
+		}
+		s.Round(r)
+		s.Round(r)
+		// unpause
+		if pick(r, "cli", "annotation") == "cli" {
+			if t := s.RunCLI("canary-unpause", key); t.Err != nil {
+				s.userAnnotate(def.NS, def.Name, edsv1.ExtendedDaemonSetCanaryPausedAnnotationKey, "false")
+				s.userAnnotate(def.NS, def.Name, edsv1.ExtendedDaemonSetCanaryUnpausedAnnotationKey, "true")
+			}
+		} else {
+			s.userAnnotate(def.NS, def.Name, edsv1.ExtendedDaemonSetCanaryPausedAnnotationKey, "false")
+			s.userAnnotate(def.NS, def.Name, edsv1.ExtendedDaemonSetCanaryUnpausedAnnotationKey, "true")
+		}
+		for i := 0; i < 8; i++ {
+			s.step++
+			s.Round(r)
+		}
+		e = s.Store.GetEDS(def.NS, def.Name)
+		if e == nil || e.Status.Canary == nil || e.Status.Canary.ReplicaSet != cr.Name {
+			break
+		}
+		cr = s.Store.GetERS(def.NS, cr.Name)
+		if cr == nil || ersCondTrue(&cr.Status, edsv1.ConditionTypeCanaryFailed) {
+			break
+		}
+		s.Stats.NonVacuous["C08.unpause"]++
+		for _, cn := range e.Status.Canary.Nodes {
+			n := s.Store.GetNode(cn)
+			if n == nil || !eligibleSpec(n, &cr.Spec.Template.Spec) {
+				continue
+			}
+			has := false
+			for _, p := range s.Store.Pods() {
+				if podNode(p) == cn && isDaemonPod(p, def.NS, def.Name) && letterOfPod(p) == letter && !terminating(p) {
+					has = true
+				}
+			}
+			if !has {
+				sig := "some-pods-left"
+				if ersCondTrue(&cr.Status, edsv1.ConditionTypeCanaryPaused) {
+					sig = "condition-stuck"
+				}
+				s.Violate("C08", "canary-resume", sig, "8 rounds after the canary was unpaused, canary node %s still has no pod of the canary template (Canary-Paused condition=%v, state=%s, %d canary pods had been removed while paused)", cn, ersCondTrue(&cr.Status, edsv1.ConditionTypeCanaryPaused), e.Status.State, removed)
+				break
+			}
+		}
+	}
+	// lift everything: the rollout must complete
+	s.Quiesce()
+}
+
+func init() {
+	register(&Profile{Name: "C08", Decide: []string{"C08"}, Quick: 1500, Thorough: 80000, Gen: genC08, Body: bodyC08,
+		NonVacuous: []string{"C08.paused-or-frozen-sync", "C08.paused-canary-sync", "C08.unpause", "C08.hold-ru-paused", "C08.hold-frozen"}, Chunk: 50,
+		Rule: "Rollout states reached by seeded history with every combination and toggling order of the rolling-update-paused, rollout-frozen, canary-paused and canary-unpaused annotations (user edits and kubectl-eds commands); per-sync monitors judge what a sync may create or delete while they are set; then one of: the rolling update is held paused (empty eligible nodes must still get a pod), held frozen, or a paused canary loses some of its pods and is unpaused (it must resume); finally all holds are lifted and the rollout must complete within the convergence bound. " + histRule})
 }
